@@ -151,3 +151,9 @@ func Big(a int) int {
 func PhBig(a int) int { return filler(a) - 1000 }
 
 var OBig = PhBig
+
+//go:noinline
+func dup(a int) int { return work(a) + 1100 }
+
+// CallDup reaches the unexported dup of this package.
+func CallDup(a int) int { return dup(a) }
